@@ -1,6 +1,9 @@
 package ua
 
-import "reflect"
+import (
+	"encoding/binary"
+	"reflect"
+)
 
 // C03 — any successfully decoded value can be re-encoded and decodes identically.
 
@@ -71,4 +74,69 @@ func VerifH_C03_VariantShapes() {
 	}
 	vfAssert(reflect.DeepEqual(v1.Value(), v2.Value()) && v1.Type() == v2.Type(), "decode(encode(decode(b))) differs from decode(b)")
 	vfReach("stable")
+}
+
+// structured: a DataValue without a value but with any combination of the other five fields
+// (status, two timestamps, two picosecond fields), all field bytes symbolic
+func VerifH_C03_DataValueFields() {
+	in := vfBytes("in", 25)
+	vfAssume(in[0]&DataValueValue == 0 && in[0]&0xc0 == 0)
+	v1 := new(DataValue)
+	if _, err := v1.Decode(in); err != nil {
+		vfReach("undecodable")
+		return
+	}
+	// timestamps inside the int64-nanosecond range of time.Time (the out-of-range case is VerifH_C03_DateTimeRange)
+	off := 1
+	if v1.Has(DataValueStatusCode) {
+		off += 4
+	}
+	if v1.Has(DataValueSourceTimestamp) {
+		vfAssume(vfTsInRange(in[off:]))
+		off += 8
+	}
+	if v1.Has(DataValueSourcePicoseconds) {
+		off += 2
+	}
+	if v1.Has(DataValueServerTimestamp) {
+		vfAssume(vfTsInRange(in[off:]))
+	}
+	enc, err := v1.Encode()
+	vfAssert(err == nil, "a decoded DataValue cannot be encoded again")
+	if err != nil {
+		return
+	}
+	v2 := new(DataValue)
+	k2, err := v2.Decode(enc)
+	vfAssert(err == nil && k2 == len(enc), "the re-encoding of a decoded DataValue does not decode completely")
+	if err != nil {
+		return
+	}
+	vfAssert(reflect.DeepEqual(v1, v2), "decode(encode(decode(b))) differs from decode(b)")
+	vfReach("stable")
+}
+
+const vfEpoch = 116444736000000000 // 100 ns ticks between 1601 and 1970
+
+// vfTsInRange: zero, or between 1970 and 2255 (so that (ts-epoch)*100 fits an int64; dates
+// before 1970 are left to VerifH_C03_DateTimeRange together with the far future)
+func vfTsInRange(b []byte) bool {
+	ts := binary.LittleEndian.Uint64(b)
+	return ts == 0 || ts-vfEpoch <= 90000000000000000
+}
+
+// DateTime values outside what time.Time.UnixNano can represent (before 1677 / after 2262,
+// e.g. the customary "max" DateTime 0x7fffffffffffffff)
+func VerifH_C03_DateTimeRange() {
+	in := append([]byte{DataValueSourceTimestamp}, vfBytes("ts", 8)...)
+	v1 := new(DataValue)
+	if _, err := v1.Decode(in); err != nil {
+		return
+	}
+	enc, err := v1.Encode()
+	vfAssert(err == nil, "a decoded DataValue cannot be encoded again")
+	v2 := new(DataValue)
+	_, err = v2.Decode(enc)
+	vfAssert(err == nil && reflect.DeepEqual(v1, v2), "a DateTime outside the int64-nanosecond range changes when re-encoded")
+	vfReach("datetime")
 }
